@@ -104,7 +104,7 @@ Print Assumptions refused_or_blocked_taskrunner.
 (* ---- MapReduce (core/mr executeMappers) and fx (walkLimited) worker pools ---- *)
 
 (* cap_never_exceeded: at every step of every schedule, for any number of items and any
-   placement of panicking mapper / walk functions: workers inside the user function <= live
+   placement of panicking (and, for the MapReduce family, cancelling) mapper / walk functions: workers inside the user function <= live
    worker goroutines <= slots taken (live + the slot the dispatcher may hold in hand) <= n. *)
 Theorem cap_never_exceeded_mr : forall n items sched,
   let s := wexec WMr n items sched in
@@ -368,15 +368,15 @@ Proof. vm_compute. reflexivity. Qed.
 (* mr, 2 workers, 4 items, the mapper panics on item 1: its slot comes back, one more item is
    dispatched by the dispatcher that was already waiting for a slot, then it stops (failed) *)
 Example ex_mr_panic :
-  let s := wexec WMr 2 [false; true; false; false]
+  let s := wexec WMr 2 (bp [false; true; false; false])
                  [0;0;0;0;0; 0;0;0;0; 0; 1; 2; 2;2; 0;0;0; 0; 3; 1;1; 3;3; 0] in
   (map wst (wtasks s), wc s, wwg s, wfailed s, wd s, witems s) =
-  ([WDn; WDn; WDn], 0, 0, true, DDone, [false]).
+  ([WDn; WDn; WDn], 0, 0, true, DDone, bp [false]).
 Proof. vm_compute. reflexivity. Qed.
 
 (* fx, 1 worker: the panicking walk function does not leak the slot, all 3 items run *)
 Example ex_fx_panic :
-  let s := wexec WFx 1 [true; false; false]
+  let s := wexec WFx 1 (bp [true; false; false])
                  [0;0;0;0; 1;1;1;1; 0;0;0;0; 2;2;2;2; 0;0;0;0; 3;3;3;3; 0;0;0] in
   (map wst (wtasks s), wc s, wwg s, wd s) = ([WDn; WDn; WDn], 0, 0, DDone).
 Proof. vm_compute. reflexivity. Qed.
